@@ -374,6 +374,7 @@ PROPS = {
         "stages": [
             {"mode": "native", "cpu_budget": 400},
             {"mode": "asan", "shards": 4, "scale": 0.05, "tiers": ["thorough"], "cpu_budget": 900},
+            {"mode": "tsan", "shards": 4, "scale": 1.0, "tiers": ["thorough"], "cpu_budget": 900},
         ],
         "rule": "an evaluation is one request served by DgramServer (mock AsyncDgramSock) or StreamServer (mock AsyncAccept over tokio duplex streams) with the "
                 "stack MandatoryMiddlewareSvc(EdnsMiddlewareSvc(CookiesMiddlewareSvc(service))) (cookies enabled in half of the cases; a third of the EDNS "
@@ -390,7 +391,10 @@ PROPS = {
                 "of 3 s, shorter than the response write timeout) and must still get every frame whole. Connection churn: a server allowing 2-4 concurrent "
                 "connections sees 5-14 connections one after the other (served and closed, aborted mid-request, hostile octets, a handshake whose accept "
                 "future fails, left to its idle timeout, closed without a word); each connection that sends a request, and a probe at the end, must be "
-                "answered (no ending may keep its place in the connection count); distinct = (transport, service kind, EDNS class, configured maximum, TC, size class) resp. (kind, count, chunking, pipeline depth)",
+                "answered (no ending may keep its place in the connection count). Real threads: 6-16 transactions of 300-1200 messages each pipelined on one "
+                "connection of a server on a multi-thread runtime (4-12 workers) with a requester that drains a small pipe: every message of every "
+                "transaction exactly once and in order (also the whole of the ThreadSanitizer stage). UDP sockets report readiness with nothing to "
+                "read now and then; distinct = (transport, service kind, EDNS class, configured maximum, TC, size class) resp. (kind, count, chunking, pipeline depth)",
         "assumptions": ["a connection that carried hostile input may be closed by the server: requests behind it need not be answered",
                         "a hostile datagram may be answered (at most once, with its ID) or dropped"],
     },
